@@ -9,8 +9,14 @@ def validId (id : Nat) : Bool := id != 9
 def parseNats (s : String) : Option (List Nat) :=
   if s == "-" ∨ s == "" then some [] else (s.splitOn ".").mapM (·.toNat?)
 
+/-- sig field `<class>` or `<class>k<mult>`: the harness sends key number `class + 3*mult` (any uint64), the ONT-ID stub
+answers by the class; the key number itself is opaque to the auth contract and to the model -/
 def parseSig (s : String) : Option Sig :=
-  if s == "1" then some .ok else if s == "0" then some .bad else if s == "2" then some .err else none
+  match s.splitOn "k" with
+  | [c] | [c, _] =>
+    if (s.splitOn "k").length == 2 ∧ ((s.splitOn "k").getD 1 "").toNat?.isNone then none
+    else if c == "1" then some .ok else if c == "0" then some .bad else if c == "2" then some .err else none
+  | _ => none
 
 def parseOp (s : String) : Option (Nat × Op) :=
   match s.splitOn "," with
